@@ -80,6 +80,7 @@ class RngModel:
         self.draws: list = []  # (function name, full state term before the draw)
         self.seeds: list = []  # terms passed to seed()
         self.events: list = []
+        self.entropy: list = []  # local generators created without a seed (OS entropy)
 
     @property
     def state(self):
@@ -144,6 +145,25 @@ class RngModel:
         for n in _DRAWS:
             if hasattr(npr, n):
                 patch.attr(npr, n, self._draw(n))
+        # generators created from operating-system entropy escape every seed: record them (they still work)
+        real_default_rng, real_rs = npr.default_rng, npr.RandomState
+        model = self
+
+        def default_rng(seed=None, *a, **k):
+            if seed is None:
+                model.entropy.append("numpy.random.default_rng()")
+                seed = 0x5EED + len(model.entropy)
+            return real_default_rng(seed, *a, **k)
+
+        class RandomState(real_rs):  # type: ignore[misc,valid-type]
+            def __init__(self, seed=None, *a, **k):
+                if seed is None:
+                    model.entropy.append("numpy.random.RandomState()")
+                    seed = 0x5EED + len(model.entropy)
+                super().__init__(seed, *a, **k)
+
+        patch.attr(npr, "default_rng", default_rng, "records generators seeded from OS entropy")
+        patch.attr(npr, "RandomState", RandomState, "records generators seeded from OS entropy")
         patch.log.append("numpy.random global-state functions -> vx.rngmodel (uninterpreted state machine: MT bits + Gaussian cache)")
         return self
 
